@@ -468,6 +468,12 @@ class Hostname(ConfigValue[str]):
 
         return raw_value
 
+    def serialize(self, value: str, display: bool = False) -> str:
+        if value is None:
+            return ""
+        # A unix socket path may contain backslashes, which deserialize() decodes.
+        return encode(value)
+
 
 class Port(Integer):
     """Network port value.
